@@ -95,6 +95,20 @@ pub mod vp_sig {
                 *r == (if old(self).view().contains_key(k@) { old(self).view()[k@] } else { default }),
                 final(self).view() == old(self).view().insert(k@, *final(r)),
         { unimplemented!() }
+        /// `retain(|key, _| key == K)` (T-rename): only the entry under K, if any, stays
+        #[verifier::external_body]
+        pub fn retain_only_key(&mut self, k: &str)
+            ensures
+                forall|x: Seq<char>| #[trigger] final(self).view().contains_key(x) == (x == k@ && old(self).view().contains_key(x)),
+                old(self).view().contains_key(k@) ==> final(self).view()[k@] == old(self).view()[k@],
+                // (a consequence of the first clause, stated so that callers need no quantifier instantiation)
+                final(self).is_empty_spec() == !old(self).view().contains_key(k@),
+        { unimplemented!() }
+        pub open spec fn is_empty_spec(&self) -> bool { forall|x: Seq<char>| !self.view().contains_key(x) }
+        #[verifier::external_body]
+        pub fn is_empty(&self) -> (r: bool)
+            ensures r == self.is_empty_spec(),
+        { unimplemented!() }
         /// `get_mut`: only the value read through the reference is specified (the one caller reads it and drops the map)
         #[verifier::external_body]
         pub fn get_mut(&mut self, k: &str) -> (r: Option<&mut V>)
